@@ -3,6 +3,9 @@ package main
 import (
 	_ "embed"
 	"encoding/json"
+	"fmt"
+	"go/ast"
+	"go/types"
 	"strings"
 
 	"golang.org/x/tools/go/ssa"
@@ -70,13 +73,28 @@ func freezeNames(p *Program) map[string]frozenFn {
 			continue
 		}
 		fz := snapshotNames(f)
-		if len(fz.Params)+len(fz.Free)+len(fz.Locals) == 0 {
-			continue
-		}
 		if _, dup := out[f.String()]; dup {
 			continue
 		}
 		out[f.String()] = fz
+	}
+	// every declared function, whether or not SSA considers it reachable (the list also says which functions exist in
+	// the pinned tree, see inline.go)
+	for _, pk := range p.Pkgs {
+		if !strings.HasPrefix(pk.PkgPath, modPath) || pk.TypesInfo == nil {
+			continue
+		}
+		for _, f := range pk.Syntax {
+			for _, d := range f.Decls {
+				if fd, ok := d.(*ast.FuncDecl); ok {
+					if obj, ok := pk.TypesInfo.Defs[fd.Name].(*types.Func); ok {
+						if _, have := out[obj.FullName()]; !have {
+							out[obj.FullName()] = frozenFn{}
+						}
+					}
+				}
+			}
+		}
 	}
 	return out
 }
@@ -105,9 +123,26 @@ func sameTypes(a, b []string) bool {
 }
 
 // applyFrozenNames fills canonName for the loaded program; returns how many values print under a frozen name.
-func applyFrozenNames(p *Program) (int, error) {
+var frozenCache map[string]frozenFn
+
+func frozenNames() (map[string]frozenFn, error) {
+	if frozenCache != nil {
+		return frozenCache, nil
+	}
 	var frozen map[string]frozenFn
 	if err := json.Unmarshal(frozenNamesJSON, &frozen); err != nil {
+		return nil, err
+	}
+	if len(frozen) < 1000 {
+		return nil, fmt.Errorf("names.json lists only %d functions", len(frozen))
+	}
+	frozenCache = frozen
+	return frozen, nil
+}
+
+func applyFrozenNames(p *Program) (int, error) {
+	frozen, err := frozenNames()
+	if err != nil {
 		return 0, err
 	}
 	n := 0
